@@ -16,11 +16,33 @@ theorem C03_one_in_flight (cfg : Cfg) (script : List PEntry) (evs : List Ev) :
     C03.oneInFlightOk (trace cfg script evs) = true :=
   accepts_trace _ _ cfg script evs (run_top cfg script evs).1.g1.oifOk
 
+/-- `last_committed_offset` only ever takes a value the broker acknowledged (the offset of a commit
+    request whose reply was a success) or reported (an OffsetFetchResponse), on every trace. -/
+theorem C03_committed_is_acked (cfg : Cfg) (script : List PEntry) (evs : List Ev) :
+    C03.committedAckedOk (trace cfg script evs) = true :=
+  accepts_trace _ _ cfg script evs (run_top cfg script evs).1.ack.ackOk
+
+/-- Started from the committed position `c ≥ 0`, the next FetchRequest the consumer issues is at
+    `c + 1` (whatever else happens in between, short of a restart), on every trace. -/
+theorem C03_resume (cfg : Cfg) (script : List PEntry) (evs : List Ev) :
+    C03.resumeOk (trace cfg script evs) = true :=
+  accepts_trace _ _ cfg script evs (run_top cfg script evs).1.res.resOk
+
+/-! Non-vacuity: `start(OFFSET_COMMITTED)`, the coordinator reports offset 41, the consumer fetches at 42. -/
+example :
+    let cfg : Cfg := { group := true, autoN := 0, autoS := 0, bufInit := 100, bufMax := none, retryInit := 1, retryMax := 2,
+                       maxAttempts := 0, reset := none }
+    (trace cfg [] [.start Afkak.Consts.offsetCommitted, .offsetFetchOk 0 41]).filterMap
+        (fun | .ob (.fetch k off _) => some (k, off) | _ => none) = [(1, 42)] := by
+  decide +kernel
+
 end Afkak.Props.C03
 
 /- OBLIGATIONS
 C03_commit_le_processed
 C03_one_in_flight
+C03_committed_is_acked
+C03_resume
 -/
 /- OPEN_STATEMENTS
 -/
